@@ -38,7 +38,7 @@ def run(ctx):
         for _ in range(1500 if quick else 40000):
             fm.append(c09.rand_format(r, nconv=r.choice([1, 1, 2, 3])))
         # lengths from the exact reference (the implementation's own unbounded output is compared by the oracle)
-        cases = vlib.load_corpus("C10")
+        cases = [c for c in vlib.load_corpus("C10") if not c[0].startswith("pf print")]
         nlines = 0
         for fmt, args in fm:
             try:
@@ -54,6 +54,39 @@ def run(ctx):
             cases.append(lines)
         ctx.extra_cov["bounded_calls"] = nlines
     ctx.correspond("bounded-snprintf", exe, cases, oracle=oracle, nontrivial=lambda c: "25" in c[0].split()[3], timeout=600)
+    # bounded print / println into byte buffers (malloc(n)) and strings (n-limited), every n
+    if ctx.replay_cases is None:
+        r = ctx.rng
+        pcases = [c for c in vlib.load_corpus("C10") if c[0].startswith("pf print")]
+        for _ in range(400 if ctx.tier == "quick" else 12000):
+            objs = c09.rand_objs(r)
+            if not objs: continue
+            toks = c09.obj_tokens(objs)
+            ln = len(c09.print_ref(objs, True))
+            ns = range(0, ln + 3) if ln <= 80 else sorted(set([0, 1, 2, ln - 1, ln, ln + 1] + [r.randrange(ln) for _ in range(10)]))
+            lines = []
+            for n in ns:
+                for fn in ("bp", "bpl", "snp", "snpl"):
+                    lines.append("pf print %s %d %s" % (fn, n, toks))
+            lines.append("pf print bp 100000 " + toks)
+            pcases.append(lines)
+        ctx.correspond("bounded-print", exe, pcases, oracle=print_oracle, nontrivial=lambda c: True, timeout=600)
+
+
+def print_oracle(case, out):
+    """bp / snp: return value = complete length, bytes = prefix of the unbounded print; println forms: in bounds only
+    (AddressSanitizer) - the property states no prefix law for them"""
+    d = lambda o: dict(x.split("=", 1) for x in o.split())
+    full = d(out[-1]); fw = b"" if full["w"] == "-" else bytes.fromhex(full["w"]); fr = int(full["r"])
+    for l, o in zip(case[:-1], out[:-1]):
+        t = l.split(); fn, n = t[2], int(t[3])
+        if fn not in ("bp", "snp"): continue
+        dd = d(o); w = b"" if dd["w"] == "-" else bytes.fromhex(dd["w"])
+        if int(dd["r"]) != fr:
+            return "%s: returned %s, the complete output has %d bytes" % (l, dd["r"], fr)
+        if w != fw[:n]:
+            return "%s: wrote %r, not a prefix of the unbounded output %r" % (l, w, fw)
+    return None
 
 
 def c09_assumptions():
